@@ -20,7 +20,9 @@ RULE = ('nested mappings of depth <= 4 and width <= 5 built from dict, OrderedDi
         'bytes, None, frozenset; values str (plain, or carrying a rendering of a secret), bytes, numbers, None, lists '
         '(also lists holding dicts) and mappings; plus non-mapping arguments; plus call sequences in one process '
         '(the same mapping re-masked with different secrets, a result fed to the next call with another secret, '
-        'strings whose embedded secret already equals the mask, repeated and interleaved calls). Non-trivial: the result differs from the '
+        'strings whose embedded secret already equals the mask, repeated and interleaved calls); plus, for every '
+        'sanitize key and rendering, the shortest strings that rendering can take (one-character and empty secrets, '
+        'length len(key)+2 upwards) under non-sanitize keys at depth 1..4 in every Mapping type. Non-trivial: the result differs from the '
         'argument (something was masked) or TypeError was raised; distinct by the encoded tree and mask')
 TRUSTED_BASE = [
     'Lean 4 kernel; axioms audited per theorem (subset of propext, Classical.choice, Quot.sound)',
@@ -90,7 +92,50 @@ def gen_str_key(rng):
     return rng.choice(['user', 'name', 'id', 'home-dir', 'nested', 'data', '', ' ', 'Key', 'pass', 'word', 'tok'])
 
 
+SHORT_CHARS = 'x7-^=.*_Z#:/ſ'      # one-character secrets: non-space, non-quote
+
+
+def short_secret_strings(rng, key, form=None):
+    """The shortest strings each rendering of `key` can take (one-character or empty secrets: len(key)+2 upwards)
+    and their neighbours -- every one of them must come back as mask_password(value)."""
+    K = C04.case_form(rng, key, form or rng.choice(['lower', 'upper', 'cap', 'mixed']))
+    c, c2 = rng.choice(SHORT_CHARS), rng.choice(SHORT_CHARS)
+    d = rng.choice('0123456789')
+    return [K + '=' + c, K + '=' + c + c2, K + d + '=' + c, K + ' =' + c, K + '= ' + c, K + '\t=' + c,
+            K + '=""', K + "=''", K + '="' + c + '"', K + "='" + c + "'", K + ' ""', K + " '" + c + "'",
+            '--' + K + ' ' + c, '--' + K + '\n' + c + c2, '"' + K + '":""', "'" + K + "':'" + c + "'",
+            '"' + K + '": u"' + c + '"', '<' + K + '></' + K + '>', '<' + K + '>' + c + '</' + K + '>',
+            K + '-a ' + c, K + ' --_ ' + c, "'" + K + "','-a','" + c + "'",
+            K + ':' + c, K + ' ' + c, K + '=', K[:-1] + '=' + c, c + K + '=' + c]
+
+
+def short_secret_tree(rng, key, form=None, depth=None):
+    """A mapping (random Mapping type at every level) holding the shortest maskable strings of `key` under keys that
+    are not sanitize keys, `depth` levels down."""
+    vals = short_secret_strings(rng, key, form)
+    items = [('v%d' % i, v) for i, v in enumerate(vals)]
+    rng.shuffle(items)
+    cut = rng.randrange(1, len(items))
+    inner = make_mapping(rng, items[:cut])
+    for lvl in range((depth or rng.randrange(1, 5)) - 1):
+        inner = make_mapping(rng, [('n%d' % lvl, inner), ('id', lvl)])
+    outer = dict(items[cut:])
+    outer['nested'] = inner
+    return make_mapping(rng, list(outer.items()))
+
+
+def short_secret_grid(rng, passes):
+    keys = C04.all_keys()
+    for p in range(passes):
+        for key in keys:
+            yield short_secret_tree(rng, key, ['lower', 'upper', 'cap', 'mixed'][p % 4], depth=1 + (p + len(key)) % 4)
+
+
 def gen_leaf(rng):
+    if rng.random() < 0.12:
+        keys = C04.all_keys()
+        key = rng.choice(sorted(keys, key=len)[:6]) if rng.random() < 0.5 else rng.choice(keys)
+        return rng.choice(short_secret_strings(rng, key))
     x = rng.random()
     if x < 0.45:
         y = rng.random()
@@ -364,8 +409,12 @@ def shrink_sequence(case):
     if not fresh_process_fails(case):
         return case                     # only reproducible with this run's history: keep everything
     steps = case['steps']
+    import time
+    deadline = time.time() + 45            # wall-clock budget for the fresh-interpreter runs
 
     def still(sub):
+        if time.time() > deadline:
+            return False
         return bool(fresh_process_fails({'kind': 'seq', 'steps': sub}))
     small = common.shrink_list(steps, still, max_steps=25)
     r = fresh_process_fails({'kind': 'seq', 'steps': small})
@@ -379,6 +428,7 @@ def correspondence(ctx):
     fixed = [{}, {'password': 'x'}, {'PASSWORD': {'a': 'b'}}, {'a': {'password': {'token': 'x'}}},
              {'password': ['x']}, {b'password': 'password=abc'}, {'user': 'password=abc'},
              {'Passwordİ': 1}, {'toKen': 1}, {'ſecret': 1, 'x': 'ſecret=abc secret=abc'}]
+    fixed += list(short_secret_grid(rng, 2 if ctx.quick else 16))
     for i in range(n + len(fixed)):
         arg = fixed[i] if i < len(fixed) else gen_case(rng, ctx.quick)
         mask = C04.gen_mask_text(rng, rng.random() < 0.2)
@@ -562,23 +612,11 @@ def search(ctx, seeds, full=False):
     for k in C04.SPEC_KEYS:
         for form in (k, k.upper(), k.capitalize(), 'x_' + k + '2'):
             todo.append(({form: 'v', 'n': {form: 5, 'plain': 'user ' + k + '=abc'}}, '***'))
+    for t in short_secret_grid(rng, (4 if full else 1) if ctx.quick else 12):
+        todo.append((t, C04.gen_mask_text(rng)))
     for _ in range(n):
         mask = C04.gen_mask_text(rng)
         todo.append((gen_case(rng, ctx.quick), mask))
-    for arg, mask in todo:
-        ctx.evaluations += 1
-        why = oracle(arg, mask)
-        if why:
-            kindword = why.split(':')[0]
-            small = shrink_arg(arg, mask, kindword) if type(arg) is dict else arg
-            try:
-                tree = Enc().val(small)
-            except Exception:
-                tree = None
-            fails.append(Failure({'repr': repr(small)[:1500], 'tree': tree, 'mask': mask},
-                                 {'kind': kindword, 'what': oracle(small, mask)}))
-            if len(fails) >= 5:
-                break
     # call sequences: the result of every call must depend on that call's arguments only
     def report(case, why):
         small = shrink_sequence(case)
@@ -605,6 +643,34 @@ def search(ctx, seeds, full=False):
                 if k not in seq_kinds or len(fails) < 2:
                     seq_kinds.add(k)
                     report(seq_case(done, i), why)
+                break
+    if len(fails) >= 5:
+        return fails
+    for arg, mask in todo:
+        ctx.evaluations += 1
+        why = oracle(arg, mask)
+        if why:
+            kindword = why.split(':')[0]
+            try:
+                one = {'kind': 'seq', 'steps': [{'tree': Enc().val(arg), 'mask': mask, 'repr': repr(arg)[:400]}]}
+                fresh = fresh_process_fails(one)
+            except Exception:
+                fresh = True
+            if not fresh:
+                # fails here but not in a fresh interpreter: the result depends on earlier calls of this run
+                fails.append(Failure(dict(one, failing_step=0, note='fails only after the earlier calls of this run'),
+                                     {'kind': 'history-dependent', 'what': why}))
+                if len(fails) >= 5:
+                    break
+                continue
+            small = shrink_arg(arg, mask, kindword) if type(arg) is dict else arg
+            try:
+                tree = Enc().val(small)
+            except Exception:
+                tree = None
+            fails.append(Failure({'repr': repr(small)[:1500], 'tree': tree, 'mask': mask},
+                                 {'kind': kindword, 'what': oracle(small, mask)}))
+            if len(fails) >= 5:
                 break
     return fails
 
